@@ -10,6 +10,10 @@ stdin  : JSON list of histories; operations (r, rx: names of references the hist
            ["bprim", name, r] ["bptr", rx, r] ["barr", rx, n, r] ["bfn", [rargs], rres, ell, r]
            ["item", rx, r] ["result", rx, r] ["arg", rx, i, r]        introspection
            ["drop", r] ["cycdrop", r] ["dropall"] ["dropffi", f] ["gc"]
+           ["dropcb", r, [ops]]             drop r after registering a weakref callback that runs ops
+           ["cycfin", r, resurrect, [ops], r2]   move r into a garbage cycle together with an object whose __del__
+                                            runs ops (requests) when the cycle is collected and, if resurrect,
+                                            keeps the ctype alive again under the name r2
 stdout : one JSON line per history {"h": i, "events": [...]} and a final {"end": true}
 """
 import sys, json, gc, weakref
@@ -30,6 +34,8 @@ def main():
         wrs = {}            # serial -> weakref
         count = [0]
         pending_dead = []
+        ids = {}            # serial -> id()
+        userwrs = []        # weak references with user callbacks (kept alive)
 
         def serial(ct):
             i = id(ct)
@@ -40,11 +46,21 @@ def main():
                 ser[i] = s
 
                 def cb(_wr, i=i, s=s):
-                    ser.pop(i, None)
-                    wrs.pop(s, None)
-                    pending_dead.append(s)
+                    if s in wrs:
+                        ser.pop(i, None)
+                        wrs.pop(s, None)
+                        pending_dead.append(s)
                 wrs[s] = weakref.ref(ct, cb)
+                ids[s] = i
             return s
+
+        def report_dead_now(s):
+            """called from a user weakref callback (it runs before the callback above: the most recently
+            registered callback is called first)"""
+            if s in wrs:
+                ser.pop(ids[s], None)
+                wrs.pop(s, None)
+                events.append({"op": "dead", "s": s, "d": "", "req": "", "agg": False, "rk": "", "rc": [], "rn": 0})
 
         def flush_dead():
             # the order of deaths inside one operation is unspecified: composites first
@@ -137,98 +153,158 @@ def main():
             if not ns:
                 raise Skip()
             return ns
+        def do(op):
+            k = op[0]
+            if k == "ffi":
+                f = cffi.FFI()
+                f.cdef("struct node%s { struct node%s *next; int v; };" % (op[1], op[1]))
+                ffis[op[1]] = f
+                del f
+            elif k == "typeof":
+                ct = ffis[op[1]].typeof(op[2])
+                got(ct, expect(ct, op[3]))
+                refs[op[4]] = ct
+                del ct
+            elif k == "ool":
+                ct = ool.typeof(op[1])
+                got(ct, expect(ct, op[2]))
+                refs[op[3]] = ct
+                del ct
+            elif k == "bprim":
+                ct = B.new_primitive_type(op[1])
+                got(ct, "prim:" + op[1], "prim", (), 0 if op[1] == "short" else 1)
+                refs[op[2]] = ct
+                del ct
+            elif k == "bptr":
+                x = R(op[1])
+                ct = B.new_pointer_type(x)
+                got(ct, "ptr:%d" % serial(x), "ptr", (serial(x),))
+                refs[op[2]] = ct
+                del ct, x
+            elif k == "barr":
+                x = R(op[1])
+                ct = B.new_array_type(x, op[2])
+                got(ct, "arr:%d:%s" % (serial(x.item), op[2]), "arr", (serial(x),), op[2])
+                refs[op[3]] = ct
+                del ct, x
+            elif k == "bfn":
+                args = tuple(R(a) for a in op[1])
+                res = R(op[2])
+                ct = B.new_function_type(args, res, bool(op[3]))
+                got(ct, "fn:%d:(%s):%d:%s" % (serial(res), ",".join(str(serial(a)) for a in args), int(op[3]), ct.abi),
+                    "fn", (serial(res),) + tuple(serial(a) for a in args))
+                refs[op[4]] = ct
+                del ct, args, res
+            elif k == "item":
+                ct = R(op[1]).item
+                got(ct, None)
+                refs[op[2]] = ct
+                del ct
+            elif k == "result":
+                ct = R(op[1]).result
+                got(ct, None)
+                refs[op[2]] = ct
+                del ct
+            elif k == "arg":
+                ct = R(op[1]).args[op[2]]
+                got(ct, None)
+                refs[op[3]] = ct
+                del ct
+            elif k == "drop":
+                ns = names_of(op[1])
+                x = refs.pop(ns[0])
+                for n in ns[1:]:
+                    del refs[n]
+                s = serial(x)
+                if not any(y is x for y in refs.values()):
+                    events.append({"op": "drop", "s": s, "d": "", "req": "", "agg": False, "rk": "", "rc": [], "rn": 0})
+                del x
+            elif k == "cycdrop":
+                ns = names_of(op[1])
+                x = refs.pop(ns[0])
+                for n in ns[1:]:
+                    del refs[n]
+                s = serial(x)
+                c = [x]
+                c.append(c)
+                if not any(y is x for y in refs.values()):
+                    events.append({"op": "cycdrop", "s": s, "d": "", "req": "", "agg": False, "rk": "", "rc": [], "rn": 0})
+                del x, c
+            elif k == "dropall":
+                for sx in sorted({ser.get(id(v)) for v in refs.values()}, reverse=True):
+                    for n in [n for n, v in refs.items() if ser.get(id(v)) == sx]:
+                        del refs[n]
+                    events.append({"op": "drop", "s": sx, "d": "", "req": "", "agg": False, "rk": "", "rc": [], "rn": 0})
+                    flush_dead()
+            elif k == "dropcb":
+                # register a weak reference with a callback on the object, then drop it: the callback runs
+                # inside ctypedescr_dealloc (after the weak references were cleared, before the unique
+                # cache is cleaned) and performs the requests op[2], keeping the results
+                ns = names_of(op[1])
+                x = refs[ns[0]]
+                s = serial(x)
+                fired = []
+
+                def usercb(_wr, s=s, inner=op[2]):
+                    report_dead_now(s)
+                    fired.append(1)
+                    for iop in inner:
+                        try:
+                            do(iop)
+                        except Skip:
+                            events.append({"op": "skipped"})
+                        except (TypeError, ValueError, AttributeError, NotImplementedError) as ex:
+                            events.append({"op": "skipped", "why": "%s: %s" % (type(ex).__name__, ex)})
+                userwrs.append(weakref.ref(x, usercb))
+                for n in ns:
+                    del refs[n]
+                # "dropcb" if the object dies now (the callback then runs inside this del), else a plain drop
+                sole = sys.getrefcount(x) == 2
+                events.append({"op": "dropcb" if sole else "drop", "s": s, "d": "", "req": "", "agg": False,
+                               "rk": "", "rc": [], "rn": 0})
+                del x
+                if fired:
+                    events.append({"op": "winclose", "s": s, "d": "", "req": "", "agg": False, "rk": "", "rc": [],
+                                   "rn": 0})
+            elif k == "cycfin":
+                ns = names_of(op[1])
+                x = refs[ns[0]]
+                s = serial(x)
+
+                class Fin(object):
+                    def __del__(self, resurrect=op[2], inner=op[3], r2=op[4]):
+                        flush_dead()            # the collector has already cleared the weak references
+                        for iop in inner:
+                            try:
+                                do(iop)
+                            except Skip:
+                                events.append({"op": "skipped"})
+                            except (TypeError, ValueError, AttributeError, NotImplementedError) as ex:
+                                events.append({"op": "skipped", "why": "%s: %s" % (type(ex).__name__, ex)})
+                        if resurrect:
+                            got(self.p, None)
+                            events[-1]["res"] = True      # this object was resurrected by a finalizer
+                            refs[r2] = self.p
+                f = Fin()
+                f.p = x
+                f.cycle = f
+                for n in ns:
+                    del refs[n]
+                if not any(y is x for y in refs.values()):
+                    events.append({"op": "cycdrop", "s": s, "d": "", "req": "", "agg": False, "rk": "", "rc": [], "rn": 0})
+                del x, f
+            elif k == "dropffi":
+                ffis.pop(op[1], None)
+            elif k == "gc":
+                events.append({"op": "gc", "s": 0, "d": "", "req": "", "agg": False, "rk": "", "rc": [], "rn": 0})
+                gc.collect()
+            else:
+                raise RuntimeError("unknown op %r" % (op,))
+
         gc.collect()
         for op in ops:
           try:
-              k = op[0]
-              if k == "ffi":
-                  f = cffi.FFI()
-                  f.cdef("struct node%s { struct node%s *next; int v; };" % (op[1], op[1]))
-                  ffis[op[1]] = f
-                  del f
-              elif k == "typeof":
-                  ct = ffis[op[1]].typeof(op[2])
-                  got(ct, expect(ct, op[3]))
-                  refs[op[4]] = ct
-                  del ct
-              elif k == "ool":
-                  ct = ool.typeof(op[1])
-                  got(ct, expect(ct, op[2]))
-                  refs[op[3]] = ct
-                  del ct
-              elif k == "bprim":
-                  ct = B.new_primitive_type(op[1])
-                  got(ct, "prim:" + op[1], "prim", (), 0 if op[1] == "short" else 1)
-                  refs[op[2]] = ct
-                  del ct
-              elif k == "bptr":
-                  x = R(op[1])
-                  ct = B.new_pointer_type(x)
-                  got(ct, "ptr:%d" % serial(x), "ptr", (serial(x),))
-                  refs[op[2]] = ct
-                  del ct, x
-              elif k == "barr":
-                  x = R(op[1])
-                  ct = B.new_array_type(x, op[2])
-                  got(ct, "arr:%d:%s" % (serial(x.item), op[2]), "arr", (serial(x),), op[2])
-                  refs[op[3]] = ct
-                  del ct, x
-              elif k == "bfn":
-                  args = tuple(R(a) for a in op[1])
-                  res = R(op[2])
-                  ct = B.new_function_type(args, res, bool(op[3]))
-                  got(ct, "fn:%d:(%s):%d:%s" % (serial(res), ",".join(str(serial(a)) for a in args), int(op[3]), ct.abi),
-                      "fn", (serial(res),) + tuple(serial(a) for a in args))
-                  refs[op[4]] = ct
-                  del ct, args, res
-              elif k == "item":
-                  ct = R(op[1]).item
-                  got(ct, None)
-                  refs[op[2]] = ct
-                  del ct
-              elif k == "result":
-                  ct = R(op[1]).result
-                  got(ct, None)
-                  refs[op[2]] = ct
-                  del ct
-              elif k == "arg":
-                  ct = R(op[1]).args[op[2]]
-                  got(ct, None)
-                  refs[op[3]] = ct
-                  del ct
-              elif k == "drop":
-                  ns = names_of(op[1])
-                  x = refs.pop(ns[0])
-                  for n in ns[1:]:
-                      del refs[n]
-                  s = serial(x)
-                  if not any(y is x for y in refs.values()):
-                      events.append({"op": "drop", "s": s, "d": "", "req": "", "agg": False, "rk": "", "rc": [], "rn": 0})
-                  del x
-              elif k == "cycdrop":
-                  ns = names_of(op[1])
-                  x = refs.pop(ns[0])
-                  for n in ns[1:]:
-                      del refs[n]
-                  s = serial(x)
-                  c = [x]
-                  c.append(c)
-                  if not any(y is x for y in refs.values()):
-                      events.append({"op": "cycdrop", "s": s, "d": "", "req": "", "agg": False, "rk": "", "rc": [], "rn": 0})
-                  del x, c
-              elif k == "dropall":
-                  for sx in sorted({ser.get(id(v)) for v in refs.values()}, reverse=True):
-                      for n in [n for n, v in refs.items() if ser.get(id(v)) == sx]:
-                          del refs[n]
-                      events.append({"op": "drop", "s": sx, "d": "", "req": "", "agg": False, "rk": "", "rc": [], "rn": 0})
-                      flush_dead()
-              elif k == "dropffi":
-                  ffis.pop(op[1], None)
-              elif k == "gc":
-                  events.append({"op": "gc", "s": 0, "d": "", "req": "", "agg": False, "rk": "", "rc": [], "rn": 0})
-                  gc.collect()
-              else:
-                  raise RuntimeError("unknown op %r" % (op,))
+              do(op)
           except Skip:
             events.append({"op": "skipped"})
           except (TypeError, ValueError, AttributeError, NotImplementedError, cffi.FFIError, cffi.CDefError) as ex:
